@@ -39,11 +39,13 @@ type Dir struct {
 }
 
 func New(opts Options) *Dir {
+	// A trailing separator (or any other redundant element) must not change which path is the target
+	target := filepath.Clean(opts.Target)
 	return &Dir{
 		log:       opts.Log,
-		base:      filepath.Dir(opts.Target),
-		target:    opts.Target,
-		targetDir: filepath.Base(opts.Target),
+		base:      filepath.Dir(target),
+		target:    target,
+		targetDir: filepath.Base(target),
 	}
 }
 
